@@ -38,6 +38,7 @@ type parkedG struct {
 	id       int
 	timer    int64 // > 0: a time.Sleep in progress, ends at this instant of the goroutine's own timeline (ns)
 	isSend   bool  // parked in a channel send
+	runnable bool  // lazy spawn: not started yet, runs when the main thread blocks (FIFO)
 	sendVal  Value
 	parkNext ObjID // allocation counter when parked (objects at or above were allocated later)
 	clock    *Term // the goroutine's own clock when it parked (deterministic clock mode)
@@ -52,7 +53,11 @@ func (e *Engine) blockHere(st *State, fr *Frame, idx int, obj ObjID, what string
 	}
 	// main thread: every other goroutine is parked (run-to-block).  If one of them is asleep, time passes until
 	// the earliest sleeper wakes up; it runs until it blocks again, then the main thread retries.
-	if pg := earliestTimer(st); pg != nil {
+	pg := firstRunnable(st)
+	if pg == nil {
+		pg = earliestTimer(st)
+	}
+	if pg != nil {
 		var rest []*parkedG
 		for _, p := range st.parked {
 			if p != pg {
@@ -60,7 +65,9 @@ func (e *Engine) blockHere(st *State, fr *Frame, idx int, obj ObjID, what string
 			}
 		}
 		st.parked = rest
-		st.vnow = pg.timer
+		if pg.timer > 0 {
+			st.vnow = pg.timer
+		}
 		var px []exit
 		for _, s2 := range e.resumeG(st, pg, &px) {
 			var q pqueue
@@ -74,6 +81,15 @@ func (e *Engine) blockHere(st *State, fr *Frame, idx int, obj ObjID, what string
 	e.stats.Obligations++
 	label := "deadlock: " + what + " blocks forever"
 	e.reportFailure(st, e.tc.True, "assert", label, pos)
+}
+
+func firstRunnable(st *State) *parkedG {
+	for _, p := range st.parked {
+		if p.runnable {
+			return p
+		}
+	}
+	return nil
 }
 
 func earliestTimer(st *State) *parkedG {
@@ -139,6 +155,12 @@ func (e *Engine) spawn(st *State, fr *Frame, fv Value, args []Value, c *ssa.Call
 	}
 	if e.isRepoPkg(fn.Pkg) || (fn.Parent() != nil && e.isRepoPkg(fn.Parent().Pkg)) {
 		e.funcsSeen[fn.String()] = true
+	}
+	if e.lazySpawn {
+		// the other canonical schedule: a new goroutine does not run until the main thread blocks
+		e.stubsUsed["goroutines: lazy-start schedule (a goroutine first runs when the main thread blocks, in spawn order)"] = true
+		st.parked = append(st.parked[:len(st.parked):len(st.parked)], &parkedG{stack: []frameCont{{fr: g, idx: 0}}, id: gid, parkNext: st.next, what: "not started", runnable: true, clock: st.clock})
+		return []*State{st}
 	}
 	e.stubsUsed["goroutines: canonical run-to-block schedule (one schedule, not all)"] = true
 	return e.runG(st, &parkedG{stack: []frameCont{{fr: g, idx: 0}}, id: gid}, exits)
@@ -222,6 +244,7 @@ func (e *Engine) resumeG(st *State, pg *parkedG, exits *[]exit) []*State {
 		_ = st // sleeping goroutines keep their own clock
 	}
 	g.timer = 0
+	g.runnable = false
 	return e.runG(st, &g, exits)
 }
 
@@ -238,7 +261,7 @@ func (e *Engine) resumeGAt(st *State, g *parkedG, exits *[]exit) []*State {
 func (e *Engine) wake(st *State, obj ObjID, exits *[]exit) []*State {
 	var ids []int
 	for _, p := range st.parked {
-		if p.wait == obj && p.timer == 0 {
+		if p.wait == obj && p.timer == 0 && !p.runnable {
 			ids = append(ids, p.id)
 		}
 	}
@@ -269,7 +292,7 @@ func (e *Engine) wake(st *State, obj ObjID, exits *[]exit) []*State {
 
 func (e *Engine) hasWaiter(st *State, obj ObjID) bool {
 	for _, p := range st.parked {
-		if p.wait == obj && !p.isSend && p.timer == 0 {
+		if p.wait == obj && !p.isSend && p.timer == 0 && !p.runnable {
 			return true
 		}
 	}
@@ -408,7 +431,7 @@ func parkedEqual(a, b []*parkedG) bool {
 			continue
 		}
 		x, y := a[i], b[i]
-		if x.id != y.id || x.wait != y.wait || x.timer != y.timer || x.isSend != y.isSend || len(x.stack) != len(y.stack) || !valEqual(x.sendVal, y.sendVal) {
+		if x.id != y.id || x.wait != y.wait || x.timer != y.timer || x.isSend != y.isSend || x.runnable != y.runnable || len(x.stack) != len(y.stack) || !valEqual(x.sendVal, y.sendVal) {
 			return false
 		}
 		for l := range x.stack {
